@@ -127,7 +127,8 @@ def run(chk, replay=None):
                                  "wedge_loop": {"cmp": tables["wedge"]["cmp"], "step": [v for v, _ in tables["wedge"]["step"]]},
                                  "roulette_views": [tables["rouletteSel"]["guard"], tables["rouletteSel"]["then"],
                                                     tables["rouletteSel"]["else"], tables["rouletteTerminal"]],
-                                 "random_locus": tables["randomLocus"]["container"] + " " + tables["randomLocus"]["advance"]}
+                                 "random_locus": tables["randomLocus"]["container"] + " " + tables["randomLocus"]["advance"],
+                                 "exon_iterator": tables["exonIter"]["container"] + " " + tables["exonIter"]["atEnd"]}
         chk.cov["gen_changed_vs_committed"] = bool(gen_changed)
     except Refuse as e:
         broken.append("tools/translate_mep_ops.py refuses the current sources (unknown shape of an operator): %s" % e)
@@ -184,7 +185,7 @@ def run(chk, replay=None):
         for f in corpus:
             jobs.append(("corpus:" + os.path.basename(f), ["replay", str(set_seed), "8"], open(f).read()))
         chk.cov["corpus_files"] = len(corpus)
-        nscen = 3000 if chk.tier == "quick" else 140000     # ≈ 3 M calls: ≤ 15 min on a box with load 60
+        nscen = 3000 if chk.tier == "quick" else 120000     # ≈ 2.9 M calls: ≈ 14 min on 4 cores of a box with load 70
         nshard = 4 if chk.tier == "quick" else 64
         step = (nscen + nshard - 1) // nshard
         for s in range(nshard):
